@@ -325,7 +325,7 @@ s_reject = st.fixed_dictionaries({
     "pos": st.integers(0, 7),
     "bad": st.sampled_from([2, -1, 0.5, 3, 255, 256, 1.5, -0.0001, 1.0000001, 1e9]),
     "form": st.sampled_from(["list", "tuple", "arr", "str"]),
-    "what": st.sampled_from(["element", "2d", "none", "text", "add_scalar", "add_none", "add_bad_elem", "add_2d", "radd_bad", "add_text", "strdigit"]),
+    "what": st.sampled_from(["element", "2d", "none", "text", "add_scalar", "add_none", "add_bad_elem", "add_2d", "radd_bad", "add_text", "strdigit", "huge_tail"]),
     "text": st.sampled_from(["abc", "0 1 x", "01a", "0.5", "1e0", "two", "0b1", "[0,1]", "1;0x"]),
 })
 
@@ -378,6 +378,21 @@ def e_reject(c):
         raises(ValueError, lambda: a + [bits, bits], tag="add-2d-accepted")
         raises(ValueError, lambda: a + np.array([bits, bits]), tag="add-2d-accepted")
         raises(ValueError, lambda: [bits, bits] + a, tag="radd-2d-accepted")
+    elif w == "huge_tail":
+        # a very long record whose only invalid element sits near its end (or anywhere), as ndarray of several dtypes
+        n = [2 ** 20 + 1, 2 ** 20 + 4097, 3 * 2 ** 19 + 5, 2 ** 21 + 3, 300001][c["pos"] % 5]
+        bad = c["bad"] if float(c["bad"]).is_integer() and 0 <= c["bad"] <= 255 else 2
+        for dt in (np.uint8, np.int64, float):
+            v = np.zeros(n, dtype=dt)
+            v[1::3] = 1
+            v[[n - 1, n - 2 - c["pos"], n // 2][len(bits) % 3]] = bad
+            raises((ValueError, TypeError), binary_sequence, v, tag="non-binary-element-accepted")
+            if dt is np.uint8:
+                raises(ValueError, lambda: a + v, tag="add-non-binary-accepted")
+                v[v == bad] = 1
+                ok = lib(binary_sequence, v)
+                valid(ok, "huge record")
+                check(len(ok) == n and np.array_equal(ok.data, v), "huge-record-altered", "")
     elif w == "add_text":
         raises((ValueError, TypeError), lambda: a + c["text"], tag="add-bad-text-accepted")
         raises((ValueError, TypeError), lambda: c["text"] + a, tag="radd-bad-text-accepted")
@@ -389,12 +404,15 @@ def e_reject(c):
 # --------------------------------------------------------------------------------------------------
 # threshold comparison  electrical_signal > thr , < thr
 
+LEVELS = np.array([0.1, 0.3, 0.7, 1.1, 0.2, 2.3])
+
+
 @st.composite
 def s_cmp(draw):
     n = draw(st.integers(1, 40))
     return {
         "n": n, "seed": draw(st.integers(0, 2 ** 31)),
-        "dtype": draw(st.sampled_from(["nonneg_real", "nonneg_int", "real", "complex"])),
+        "dtype": draw(st.sampled_from(["nonneg_real", "nonneg_int", "real", "complex", "nonneg_f32", "nonneg_f16"])),
         "noise": draw(st.booleans()),
         "thr_form": draw(st.sampled_from(["py_float", "py_int", "np_float", "list", "array", "es", "es_noise", "len1_list", "len1_array", "tuple"])),
         "thr_len": draw(st.sampled_from(["match", "match", "match", "mismatch"])),
@@ -412,6 +430,11 @@ def e_cmp(c):
     elif c["dtype"] == "nonneg_int":
         s = rs.randint(0, 6, n)
         nz = rs.randint(0, 3, n) if c["noise"] else None
+    elif c["dtype"] in ("nonneg_f32", "nonneg_f16"):
+        # narrow float samples sitting on decimal levels (0.1, 0.3, ...) that the narrow type cannot represent exactly; thresholds from the same decimals
+        nd = np.float32 if c["dtype"] == "nonneg_f32" else np.float16
+        s = rs.choice(LEVELS, n).astype(nd)
+        nz = (rs.randint(0, 3, n) / 4).astype(nd) if c["noise"] else None
     elif c["dtype"] == "real":
         s = q(rs.uniform(-4, 4, n))
         nz = q(rs.uniform(-1, 1, n)) if c["noise"] else None
@@ -426,6 +449,8 @@ def e_cmp(c):
     if m == 1 and not scalar:
         m = n
     tv = q(rs.uniform(0, 4, 1 if scalar else m))
+    if c["dtype"] in ("nonneg_f32", "nonneg_f16"):
+        tv = rs.choice(LEVELS, tv.size) + (rs.randint(0, 3, tv.size) / 4 if c["noise"] else 0)
     if form == "py_int":
         tv = np.array([float(rs.randint(0, 5))])
     tn = None
@@ -465,7 +490,7 @@ def e_cmp(c):
     valid(gt, "x > thr")
     valid(lt, "x < thr")
     check(len(gt) == n and len(lt) == n, "comparison-length", f"len {len(gt)}/{len(lt)} want {n}")
-    if c["dtype"] in ("nonneg_real", "nonneg_int"):
+    if c["dtype"] in ("nonneg_real", "nonneg_int", "nonneg_f32", "nonneg_f16"):
         check(gt.data.tolist() == (total > ttot).astype(int).tolist(), "gt!=elementwise",
               f"total={total.tolist()} thr={ttot.tolist()} got {gt.data.tolist()}")
         check(lt.data.tolist() == (total < ttot).astype(int).tolist(), "lt!=elementwise",
